@@ -262,6 +262,9 @@ def _s_stream(draw, tier):
     if draw(st.integers(0, 11)) == 0:
         return {"items": items, "script": [], "qoe": draw(st.sampled_from([0, 1, 2])), "stream": "file"}
     if draw(st.integers(0, 3)) == 0:
+        bufsize = draw(st.sampled_from([1, 3, 64, 512, 4096]))
+        if draw(st.integers(0, 3)) == 0:
+            items = draw(streams.align_to(items, bufsize))
         n = sum(len(i["b"]) // 2 for i in items)
         extra = {}
         if draw(st.integers(0, 2)) == 0:
@@ -273,11 +276,11 @@ def _s_stream(draw, tier):
             "script": [],
             "qoe": draw(st.sampled_from([0, 1, 2])),
             "stream": "socket",
-            "cuts": draw(st.sampled_from([streams.boundaries(items), streams.structure_cuts(items), streams.structure_cuts(items)])) if not extra and draw(st.integers(0, 1)) == 0 else draw(streams.partitions(n)),
+            "cuts": draw(st.sampled_from([streams.boundaries(items), streams.structure_cuts(items), streams.structure_cuts(items)])) if not extra and draw(st.integers(0, 1)) == 0 else (streams.modulus_cuts(n, bufsize) if bufsize > 1 and draw(st.integers(0, 4)) == 0 else draw(streams.partitions(n))),
             "end": draw(st.sampled_from(["close", "close", "dead"])),
             "prewrap": draw(st.integers(0, 3)) == 0,
             "faults": draw(st.lists(st.sampled_from([0, 0, 1, 1, 2, 3]), min_size=0, max_size=8)),
-            "bufsize": draw(st.sampled_from([1, 3, 64, 512, 4096])),
+            "bufsize": bufsize,
         }
     script = draw(st.one_of(st.just([]), streams.read_scripts(64)))
     if draw(st.integers(0, 7)) == 0:
